@@ -33,7 +33,16 @@ func (e *Engine) verifyFunc(fc *FuncContract, proved map[string]bool) *Unit {
 func (e *Engine) verifyFuncPass(fc *FuncContract, proved map[string]bool, seed *Unit) *Unit {
 	name := shortPkg(fc.Pkg) + "." + fc.Target
 	fn := e.findFunc(fc)
+	var renamed map[string]string
+	if fn != nil {
+		if renamed = renamedLocals(name, fn, e.localsBaseline()); len(renamed) > 0 {
+			fc = withRenamedLocals(fc, renamed)
+		}
+	}
 	u := newUnit(e, fn, fc, name)
+	for o, n := range renamed {
+		u.usedAssumes = append(u.usedAssumes, fmt.Sprintf("local variable %s of %s no longer exists; the contract is read with %s (same type and declaration rank)", o, name, n))
+	}
 	if seed != nil {
 		for r, s := range seed.rsorts {
 			u.rsorts[r] = s
